@@ -7,7 +7,7 @@ from harness.oracles import abnormal
 from harness.stackrun import fut_state, state_desc
 
 PROP = "C09"
-PLAN = {"quick": {"runs": 12000, "wall_s": 90}, "thorough": {"runs": 300000, "wall_s": 1200}}
+PLAN = {"quick": {"runs": 24000, "wall_s": 90}, "thorough": {"runs": 300000, "wall_s": 1200}}
 RULE = ("Each run: a TimeoutExecutor (default timeout + submit_timeout) over a scripted delegate, or f_timeout over harness "
         "futures, with 1-6 futures whose timeouts are drawn from 0.05-120 s, submitted at drawn virtual times from 1-3 "
         "threads; the work finishes before, exactly at, after the deadline, or never; shorter deadlines arrive while the "
@@ -43,11 +43,20 @@ def gen(rng, tier):
         else:
             dur = "never"
         futs.append({"t": t, "at": rng.choice([0, 0, 0.05, 0.1, 0.5, 1.0, 4.0]), "client": rng.randrange(nclients), "dur": dur})
+    if mode == "executor":
+        for i in range(1, n):
+            j = rng.randrange(i)
+            if rng.random() < 0.4 and futs[j]["dur"] != "never" and futs[j]["client"] != futs[i]["client"]:
+                # "wait for that one, then submit the next": the submission lands while the timeout
+                # thread is busy with the completion it has just been woken for
+                futs[i]["after"] = j
     spec = {"mode": mode, "default": default, "futs": futs, "nclients": nclients,
             "workers": rng.choice([1, 2, 8]) if mode == "executor" else 8}
     horizon = max([(default if f["t"] is None else f["t"]) + f["at"] for f in futs]) + 10.0
     spec["settle"] = horizon + 10.0
     spec["sim"] = runner.draw_sim_cfg(rng, est=400, stall_ok=True)
+    if any("after" in f for f in futs):
+        runner.prefer_place(spec["sim"], 0.7)
     spec["sim"]["horizon_s"] = 100000
     return spec
 
@@ -81,12 +90,15 @@ def run(spec, env):
                     env.sleep(at - t)
                     t = at
                 fs = spec["futs"][i]
+                if "after" in fs:
+                    env.await_("work-exit-%d" % fs["after"], 60.0)
                 k = env.rec("submit", i)
                 if mode == "executor":
                     def fn(i=i, fs=fs):
                         env.rec("work", i)
                         sim.sleep(100000.0 if fs["dur"] == "never" else fs["dur"])
                         env.rec("work-end", i)
+                        env.hit("work-exit-%d" % i)
                         return ("v", i)
                     fn.tag = i
                     if fs["t"] is None:
